@@ -67,6 +67,14 @@ func wrapSwarms[A p2p.Addr](swarms []p2p.Swarm[A], addrs []A) []*Node {
 	for i, a := range addrs {
 		index[text(a)] = i
 	}
+	for i, s := range swarms {
+		// a node may be reachable under several addresses (multi-transport swarms)
+		for _, a := range s.LocalAddrs() {
+			if _, ok := index[text(a)]; !ok {
+				index[text(a)] = i
+			}
+		}
+	}
 	lookup := func(a A) int {
 		if i, ok := index[text(a)]; ok {
 			return i
@@ -117,7 +125,7 @@ type Config struct {
 	Workers  int    // mbapp workers
 }
 
-var Kinds = []string{"mem", "frag", "mbapp", "mux-string", "mux-varint", "mux-uint16", "mux-uint32", "mux-uint64", "multi", "map", "wl", "p2pke", "frag-p2pke", "mux-frag", "mbapp-mux", "multi-p2pke"}
+var Kinds = []string{"mem", "frag", "mbapp", "mux-string", "mux-varint", "mux-uint16", "mux-uint32", "mux-uint64", "multi", "map", "wl", "p2pke", "frag-p2pke", "mux-frag", "mbapp-mux", "multi-p2pke", "multi-ask"}
 
 func memOpts(c Config) []memswarm.Option {
 	var opts []memswarm.Option
@@ -317,6 +325,16 @@ func Build(c Config) *Stack {
 			addrs[i] = multiswarm.Addr{Scheme: "ke", Addr: ks.LocalAddrs()[0]}
 		}
 		st.Nodes = wrapSwarms(sw, addrs)
+	case "multi-ask":
+		r := memswarm.NewSecureRealm[string](memOpts(c)...)
+		sw := make([]p2p.Swarm[multiswarm.Addr], n)
+		addrs := make([]multiswarm.Addr, n)
+		for i := range sw {
+			s := r.NewSwarm(fmt.Sprintf("key%d", i))
+			sw[i] = multiswarm.NewSecureAsk[string](map[string]multiswarm.DynSecureAskSwarm[string]{"m": multiswarm.WrapSecureAskSwarm[memswarm.Addr, string](s)})
+			addrs[i] = multiswarm.Addr{Scheme: "m", Addr: s.LocalAddr()}
+		}
+		st.Nodes, st.HasAsk = wrapSwarms(sw, addrs), true
 	default:
 		panic("unknown stack kind " + c.Kind)
 	}
